@@ -463,8 +463,11 @@ func main() {
 				as   orb.Geometry
 			}{
 				{"planar.Length", planar.Length, v.ToRing()}, {"geo.Length", geo.Length, v.ToRing()}, {"geo.LengthHaversine", geo.LengthHaversine, v.ToRing()},
-				{"geo.Area", geo.Area, v.ToPolygon()}, {"planar.Area", planar.Area, v.ToPolygon()},
+				{"geo.Area", geo.Area, v.ToPolygon()}, {"planar.Area", planar.Area, v.ToRing()}, // the planar area of a bound is the signed area of its ring
 			} {
+				if m.name == "geo.Area" && v.IsEmpty() {
+					continue // an inverted box has no defined geodesic area
+				}
 				m := m
 				got, p1 := try(func() interface{} { return m.f(v) })
 				want, p2 := try(func() interface{} { return m.f(m.as) })
@@ -475,7 +478,7 @@ func main() {
 					}
 				}
 			}
-			if a, p := try(func() interface{} { return planar.Area(v) }); p == "" {
+			if a, p := try(func() interface{} { return planar.Area(v) }); p == "" && !v.IsEmpty() {
 				if want := (v.Max[0] - v.Min[0]) * (v.Max[1] - v.Min[1]); a.(float64) != want {
 					c.Failf("typed-vs-generic", "planar.Area(%s) = %v want %v", desc, a, want)
 				}
@@ -528,6 +531,24 @@ func main() {
 			g = orb.Collection{orb.MultiPolygon{{a, b}}, orb.Collection{b}}
 		}
 		check(c, g)
+	})
+	// bounds of every shape, alone and as collection members: ordered, degenerate, inverted on either axis, the
+	// empty sentinel, the zero bound (the grammar above only builds ordered bounds)
+	boundMenu := []orb.Bound{
+		{Min: orb.Point{0, 0}, Max: orb.Point{2, 1}}, {Min: orb.Point{1, 1}, Max: orb.Point{1, 1}}, {Min: orb.Point{0, 1}, Max: orb.Point{2, 1}},
+		{Min: orb.Point{4, 0}, Max: orb.Point{1, 2}}, {Min: orb.Point{0, 3}, Max: orb.Point{2, 1}}, {Min: orb.Point{2, 2}, Max: orb.Point{-1, -1}},
+		orb.MultiPoint{}.Bound(), {},
+	}
+	r.Explore("bound-shapes", fmt.Sprintf("%d bounds (ordered, degenerate, inverted, empty sentinel, zero) alone, in a collection next to a polygon, and nested: every entry point and check", len(boundMenu)), mc.Opts{MaxDev: -1, NewLocal: newLocal, StopAfter: 1 << 30}, func(c *mc.Ctx) {
+		b := boundMenu[c.Choose(len(boundMenu))]
+		switch c.Choose(3) {
+		case 0:
+			check(c, b)
+		case 1:
+			check(c, orb.Collection{b, orb.Polygon{{{0, 0}, {2, 0}, {2, 2}, {0, 0}}}})
+		case 2:
+			check(c, orb.Collection{orb.Collection{b}, b})
+		}
 	})
 	// multi-geometries as the combination of their members at map scale (the grammar above has coordinates in
 	// [-2,3], where every tile cover is a single tile): members that are disjoint, touching, overlapping, nested
